@@ -171,7 +171,13 @@ func runC17Scenario(c *fw.Ctx, sc c17Scenario, seed int64) {
 	id := sc.Name + "/" + sc.Entry
 	cl := sim.NewCluster(seed, 2)
 	defer cl.Close()
-	cl.CreateTable("t", nil, func(int) string { return "rs1:16020" })
+	if sc.Entry == "batch2" {
+		// two regions on two servers: the batch's first call (row a1, rs0) always
+		// succeeds, its second call (row k1, rs1) is the one that keeps failing
+		cl.CreateTable("t", [][]byte{[]byte("h")}, func(i int) string { return []string{"rs0:16020", "rs1:16020"}[i] })
+	} else {
+		cl.CreateTable("t", nil, func(int) string { return "rs1:16020" })
+	}
 	cl.EchoResults = true
 	opid := sim.OpIDPrefix + "c17-" + sc.Name + "-" + sc.Entry
 	var userWrites, probeWrites, metaWrites, dials, zks stamps
@@ -344,6 +350,15 @@ func runC17Scenario(c *fw.Ctx, sc c17Scenario, seed int64) {
 			done <- client.CacheRegions([]byte("t"))
 			return
 		}
+		if sc.Entry == "batch2" {
+			g0, _ := hrpc.NewGet(ctx, []byte("t"), []byte("a1"), hrpc.Families(map[string][]string{"echo": {sim.OpIDPrefix + "bystander-" + sc.Name}}))
+			res, _ := client.SendBatch(ctx, []hrpc.Call{g0, g})
+			if res[0].Error != nil {
+				c.Violate(id, "backoff:bystander-failed", fmt.Sprintf("the batch's first call (healthy region) ended with %v", res[0].Error), sc)
+			}
+			done <- res[1].Error
+			return
+		}
 		if sc.Entry == "batch" {
 			res, _ := client.SendBatch(ctx, []hrpc.Call{g})
 			done <- res[0].Error
@@ -408,7 +423,7 @@ func init() {
 			return fw.Plan{Batches: 2, Parallel: 2, Timeout: 6 * time.Minute}
 		},
 		Floors: func(tier string) map[string]int64 {
-			return map[string]int64{"schedule_steps_verified": 10, "scenarios": 25, "gaps_checked": 100, "attempts_observed": 120}
+			return map[string]int64{"schedule_steps_verified": 10, "scenarios": 28, "gaps_checked": 100, "attempts_observed": 120}
 		},
 		Run: func(c *fw.Ctx) {
 			maxStep := 8200 * time.Millisecond
@@ -430,6 +445,9 @@ func init() {
 				entries := []string{"get", "batch"}
 				if n == "meta-silent" || n == "meta-lookup-error" || n == "zookeeper-errors" {
 					entries = append(entries, "cache-regions")
+				}
+				if n == "drop-on-user-frame" || n == "abort-exception-forever" || n == "too-busy-forever" {
+					entries = append(entries, "batch2")
 				}
 				for _, e := range entries {
 					k++
